@@ -6,6 +6,7 @@ import ckprop
 import genck
 import impldef
 import implck
+import directed
 
 DESCRIPTION = ("Lean: Props/C19.lean (decision tables over the model of decorator construction / application and of the "
                "wrapper's first lines). Tie + oracle: every misuse kind x decorator x callable kind is built with the real "
@@ -32,7 +33,12 @@ def dcase(what, **kw):
     return c
 
 
+run_directed = directed.run
+
+
 def cases(tier, rng):
+    for c in directed.reserved_keyword_after_valid_calls_cases():
+        yield "directed-reserved-keyword-after-valid-calls", c
     for deco in ("require", "ensure", "invariant"):
         for e in ERRS:
             for v in range(10 if e == "otherValue" else 4):
@@ -43,6 +49,11 @@ def cases(tier, rng):
         for co in (False, True):
             for en in (True, False):
                 yield "invariant_cond", dcase("invariant_cond", condArgs=args, condMandatory=mand, coroFn=co, enabled=en)
+    # a coroutine function is no invariant condition, with or without an explicit (valid) `error`
+    for e in ("excClass", "excInstance", "function", "method"):
+        for args, mand in [([], []), (["self"], ["self"])]:
+            for co in (False, True):
+                yield "invariant_cond_with_error", dcase("invariant_cond", condArgs=args, condMandatory=mand, coroFn=co, err=e)
     # variadic parameters of an invariant condition are parameters like any other: only `self` may be demanded
     for args, var in [(["args"], {"args": "varPos"}), (["kw"], {"kw": "varKw"}), (["self", "rest"], {"rest": "varPos"}),
                       (["self", "opts"], {"opts": "varKw"}), (["a", "k"], {"a": "varPos", "k": "varKw"}),
